@@ -167,11 +167,17 @@ pub fn run(tape: &[u8], cx: &Cx) -> Outcome {
             q = dfa.step(q, prog.atoms.atom_of(c));
         }
         if ptr(d1) != ptr(d2) {
-            o.fail("C03/str-derivative-not-composition", format!("{}: str_derivative(e, {}) = {} but folding char_derivative gives {}", what, show_str(s), d1, d2));
-            return o;
+            // not required to be the same term, only the same language (checked next)
+            o.tag("str-derivative-differs-syntactically-from-fold");
         }
-        if d1.nullable != dfa.is_final(q) {
-            o.fail("C03/derivative-is-not-the-left-quotient", format!("{}: str_derivative(e, {}).nullable = {}", what, show_str(s), d1.nullable));
+        // str_derivative(e, s) must denote s^-1 L(e): exact comparison with the reference state after s
+        let mut w = prefix.clone();
+        w.extend(s);
+        if let BisimResult::Differ { word, crate_says, reference_says } = bisim_multi(&mut mgr, &prog.atoms, dfa, &[(q, d1, w.clone()), (q, d2, w)], 1500) {
+            o.fail(
+                "C03/str-derivative-not-composition",
+                format!("{}: str_derivative(e, {}) = {} (fold of char_derivative: {}): membership of {} is {} but must be {}", what, show_str(s), d1, d2, show_str(&word), crate_says, reference_says),
+            );
             return o;
         }
     }
